@@ -31,9 +31,11 @@ type allowed struct {
 // is NOT acceptable.
 func allowedResults(u *unitCase) (res []allowed, active, mustDecode bool) {
 	d := u.Doc
-	// interpretation (design.d/C15.md): a response carrying an Accept-Encoding header counts as "auto-decode
-	// not active" (the code skips it); such bodies must then be untouched.
-	active = !u.Set.Disable && u.Set.selectedByConfig(d.CT) && u.Set.RespAE == ""
+	// "auto-decode active for a content type": switched on, content type selected, and the body is the
+	// text itself - a body that is STILL content-encoded when it reaches the charset stage (Content-Encoding
+	// left on the response: unsupported coding, decompression off) is not text in any charset and must be
+	// left alone.  An Accept-Encoding header on the RESPONSE (RFC 9110 12.5.3) says nothing about the body.
+	active = !u.Set.Disable && u.Set.selectedByConfig(d.CT) && u.Set.RespCE == ""
 	orig := allowed{"orig", d.Body}
 	if !active {
 		return []allowed{orig}, false, false
@@ -193,15 +195,18 @@ func coqBytes(b []byte) string {
 func coqOptName(n string) string { return hk.CoqOpt(n != "", hk.CoqStr(n)) }
 
 func coqErr(e string) string {
-	if e == "EOF" {
+	switch e {
+	case "EOF":
 		return "EEOF"
+	case "other":
+		return "EFail"
 	}
 	return "ENone"
 }
 
 func emitCase(u *unitCase, o *obs, t *tables) string {
 	var sb strings.Builder
-	sb.WriteString("(C15Case " + hk.CoqBool(u.Set.Disable) + " " + coqSel(u.Set) + " " + hk.CoqStr(u.Set.RespAE) + " " + hk.CoqStr(u.Doc.CT) + "\n    ")
+	sb.WriteString("(C15Case " + hk.CoqBool(u.Set.Disable) + " " + coqSel(u.Set) + " " + hk.CoqStr(u.Set.RespAE) + " " + hk.CoqStr(u.Set.RespCE) + " " + hk.CoqStr(u.Doc.CT) + "\n    ")
 	switch t.ParseKind {
 	case "err":
 		sb.WriteString("PErr ")
@@ -220,17 +225,21 @@ func emitCase(u *unitCase, o *obs, t *tables) string {
 	for _, n := range sortedKeys(t.Stream) {
 		st = append(st, hk.CoqPair(hk.CoqStr(n), coqBytes(t.Stream[n])))
 	}
-	sb.WriteString(hk.CoqList(st) + "\n    ")
+	var pt0 []string
+	for _, n := range sortedKeys(t.Partial) {
+		pt0 = append(pt0, hk.CoqPair(hk.CoqStr(n), coqBytes(t.Partial[n])))
+	}
+	sb.WriteString(hk.CoqList(st) + " " + hk.CoqList(pt0) + "\n    ")
 	var tk []string
 	for _, x := range t.Takes {
 		tk = append(tk, hk.CoqPair(hk.CoqN(uint64(x[0])), hk.CoqBool(x[1] == 1)))
 	}
 	sb.WriteString(hk.CoqList(tk) + "\n    ")
 	var ch []string
-	for _, c := range u.Chunks {
+	for _, c := range u.delivered() {
 		ch = append(ch, coqBytes(c))
 	}
-	sb.WriteString(hk.CoqList(ch) + " " + hk.CoqBool(u.EOFLast) + " ")
+	sb.WriteString(hk.CoqList(ch) + " " + hk.CoqBool(u.EOFLast) + " " + hk.CoqBool(u.FailAt >= 0) + " ")
 	var pt []string
 	for _, k := range u.Pattern {
 		pt = append(pt, hk.CoqN(uint64(k)))
@@ -247,13 +256,17 @@ func emitCase(u *unitCase, o *obs, t *tables) string {
 		cs = append(cs, "("+hk.CoqN(uint64(c.N))+", "+coqErr(c.Err)+", ("+hk.CoqBool(c.Detected)+", "+hk.CoqBool(c.HasDec)+", "+pk+"))")
 	}
 	sb.WriteString(hk.CoqList(cs) + "\n    ")
-	whole := bytes.Join(u.Chunks, nil)
+	whole := bytes.Join(u.delivered(), nil)
 	outRef := ""
 	if bytes.Equal(o.Out, whole) {
 		outRef = "OutBody"
 	} else {
-		for _, n := range sortedKeys(t.Stream) {
-			if bytes.Equal(o.Out, t.Stream[n]) {
+		tb := t.Stream
+		if u.FailAt >= 0 {
+			tb = t.Partial
+		}
+		for _, n := range sortedKeys(tb) {
+			if bytes.Equal(o.Out, tb[n]) {
 				outRef = "(OutStream " + hk.CoqStr(n) + ")"
 				break
 			}
@@ -291,7 +304,7 @@ type world struct {
 
 func caseKey(u *unitCase) string {
 	h := sha256.Sum256(u.Doc.Body)
-	return fmt.Sprintf("%s|%x|%s|%s|%v|%v|%v|%s|%d|%s|%v", u.Kind, h[:8], u.Doc.CT, u.Set.name(), u.ChunkLen, u.EOFLast, u.Pattern, u.BufMode, u.FailAt, u.Stack, u.HighLevel)
+	return fmt.Sprintf("%s|%x|%s|%s|%v|%v|%v|%s|%d|%s|%v|%d", u.Kind, h[:8], u.Doc.CT, u.Set.name(), u.ChunkLen, u.EOFLast, u.Pattern, u.BufMode, u.FailAt, u.Stack, u.HighLevel, u.Group)
 }
 
 // eval drives the real code on u, judges it and (toCoq) emits the observation for the model.
@@ -334,6 +347,19 @@ func (w *world) eval(u *unitCase, toCoq bool) (string, obs) {
 	} else {
 		o = driveUnit(u)
 	}
+	return w.finishKeyed(u, o, toCoq, key)
+}
+
+// finish judges an observation obtained elsewhere (interleaved readers) and records it like eval does.
+func (w *world) finish(u *unitCase, o obs, toCoq bool) (string, obs) {
+	u.ChunkLen = u.ChunkLen[:0]
+	for _, c := range u.Chunks {
+		u.ChunkLen = append(u.ChunkLen, len(c))
+	}
+	return w.finishKeyed(u, o, toCoq, caseKey(u))
+}
+
+func (w *world) finishKeyed(u *unitCase, o obs, toCoq bool, key string) (string, obs) {
 	class, fail := judge(u, &o)
 	r := w.r
 	if fail != nil {
@@ -356,9 +382,15 @@ func (w *world) eval(u *unitCase, toCoq bool) (string, obs) {
 	r.Count(fmt.Sprintf("chunks:%d", min(len(u.Chunks), 5)))
 	r.Count("buf:" + u.BufMode)
 	c := hk.Case{Desc: map[string]interface{}{"kind": u.Kind, "case": u, "obs": o, "class": class, "body_hex": hexCap(u.Doc.Body, 200)}}
-	if toCoq && !u.HighLevel && o.Fatal == "" && u.FailAt < 0 && o.EndErr == "EOF" && w.coqText < w.coqCap {
+	if toCoq && !u.HighLevel && o.Fatal == "" && ((u.FailAt < 0 && o.EndErr == "EOF") || (u.FailAt >= 0 && o.EndErr == "other")) && w.coqText < w.coqCap {
 		t := buildTables(u)
 		// hypothesis instance check: streaming over this split == one-shot on the whole body (x/text)
+		for n, s := range t.Partial {
+			if !bytes.HasPrefix(t.All[n], s) {
+				r.Fail(hk.Failure{Sig: "hypothesis:dec_partial-not-a-prefix:" + n, What: "what x/text's streaming reader delivers before a source error is not a prefix of Decoder.Bytes on the complete body (hypothesis of C15_net_error_prefix)",
+					Input: map[string]interface{}{"case": u, "body_hex": hexCap(u.Doc.Body, 600)}})
+			}
+		}
 		for n, s := range t.Stream {
 			if !bytes.Equal(s, t.All[n]) {
 				r.Fail(hk.Failure{Sig: "hypothesis:dec_stream!=dec_all:" + n, What: "x/text streaming decoder over this split differs from Decoder.Bytes on the whole body (model hypothesis dec_stream_any_split)",
